@@ -113,7 +113,7 @@ CHECKS = {
         design="DESIGN.md §4 C11",
     ),
     "C20": dict(
-        rules="R20.1, R20.3-R20.8, R12.3, R20.2",
+        rules="R20.1, R20.3-R20.9, R12.3, R20.2",
         what="every loop that re-queues deferred work has a per-iteration counter compared with a constant bound that leaves the loop; type-checker deferral limited by pass_num < last_pass; partial arithmetic operators of the constant folders guarded against every failure precondition; placeholder-triggered deferrals are conditional on not being in the final iteration (defer() asserts it); constant-valued index variables are range-checked against len() of the subscripted sequence; the guard before `assert add_symbol(...)` in push_type_args recognises every type-parameter node kind and rejected parameters are not returned; no branch reports an `internal error` message as its planned outcome; a saved list index accounts for later deletions; pop() on a set built in the function is dominated by a non-emptiness test",
         quant="input programs",
         technique="CFG cycle/must-pass queries for counter-bounded fix-points; guard-chain analysis of partial operators",
@@ -129,7 +129,7 @@ CHECKS = {
         design="DESIGN.md §4 C12",
     ),
     "C15": dict(
-        rules="R15.0-R15.6",
+        rules="R15.0-R15.7",
         what="int/float/fixed-width primitive bindings agree with their C signatures and error kinds; a primitive whose result type has no spare error value (error_overlap) never declares plain ERR_MAGIC; each operator spelling of int/float primitives is bound to that operator's C function; every raw C division/modulo IntOp is emitted under a zero(-1)-excluding guard; every Truncate of a possibly out-of-range value is dominated by the two-sided range check; the inline fast path of tagged-int multiplication cannot wrap under its guard (interval arithmetic on the guard's constant bounds, from clang's expression trees)",
         quant="operator x operand type x boundary values",
         technique="cross-language table check against clang's AST; guard-chain and CFG dominance checks in the IR builder",
@@ -155,7 +155,7 @@ CHECKS = {
 }
 
 CHECKS["C18"] = dict(
-    rules="R18.1-R18.3",
+    rules="R18.1-R18.4",
     what="graph insertion discipline of build.load_graph: every insertion of a State is dominated by the clash test for its kind (module id already in the graph; file already seen under another id), the clash branch reports a blocker and raises, inserted paths are recorded; find_sources and modulefinder share one suffix table with the stub suffix first and one package marker",
     quant="directory layouts x flag settings x argument orders",
     technique="CFG must-pass / reachability queries over load_graph; constant evaluation and sibling cross-check of the two path-mapping modules' tables",
